@@ -309,3 +309,376 @@ Proof.
   - cbn [wf dflt_ok dec] in *. eapply PS_weaken; [|apply IH; assumption].
     intros a pre [H1 H2]. split; [exact H1|exact H2].
 Qed.
+
+(** * Strict mode: the accepted bytes are the encoding of the returned value *)
+Lemma find_tag_some tags b base i : find_tag tags b base = Some i ->
+  exists n, i = base + N.of_nat n /\ nth_error tags n = Some b.
+Proof.
+  revert base; induction tags as [|t r IH]; intros base H; cbn [find_tag] in H; [discriminate|].
+  destruct (N.eqb_spec t b) as [->|Hne].
+  - inversion H; subst. exists 0%nat. split; [lia|reflexivity].
+  - destruct (IH _ H) as (n & -> & E). exists (S n). split; [lia|exact E].
+Qed.
+
+Lemma reenc_bytes body : snd (emit_bytes_of (of_bytes body)) = None /\ sbytes (emit_bytes_of (of_bytes body)) = body.
+Proof.
+  destruct (emit_bytes_of_ok (of_bytes body) (map b2n body) (vals_ns_of_bytes body)) as [H1 H2].
+  split; [exact H1|]. rewrite H2. apply to_bytes_map_b2n.
+Qed.
+
+Lemma each_u8_of_bytes body :
+  snd (each_out (ser (TPrim (PInt false W1))) (of_bytes body)) = None /\
+  sbytes (each_out (ser (TPrim (PInt false W1))) (of_bytes body)) = body.
+Proof.
+  destruct (each_u8_bytes (of_bytes body) (map b2n body) (vals_ns_of_bytes body) (map_b2n_lt body)) as [H1 H2].
+  split; [exact H1|]. rewrite H2. apply to_bytes_map_b2n.
+Qed.
+
+(** the element block, written by [slice_out], equals the consumed body *)
+Lemma reenc_body t' b l body :
+  (if is_u8 t' then l = of_bytes body else chunks (fun x p => Typed t' x p /\ Reenc t' x p) l body) ->
+  snd (slice_out (is_u8 t' && b) (ser t') l) = None /\ sbytes (slice_out (is_u8 t' && b) (ser t') l) = body.
+Proof.
+  intros H. destruct (is_u8 t') eqn:Eu.
+  - assert (t' = TPrim (PInt false W1)).
+    { destruct t' as [[[] []| | | | | |]| | | | | | | |]; cbn in Eu; try discriminate; reflexivity. }
+    subst t' l. unfold slice_out. destruct b; cbn [andb]; [apply reenc_bytes|apply each_u8_of_bytes].
+  - cbn [andb]. unfold slice_out. apply chunks_each_out.
+    clear Eu. induction H as [|l a p1 p2 Hc IH [_ Hr]]; constructor; auto.
+Qed.
+
+Lemma emit_len_then n body_out body :
+  n < U32_LIMIT -> snd body_out = None -> sbytes body_out = body ->
+  snd (emit_len n >> body_out) = None /\ sbytes (emit_len n >> body_out) = le 4 n ++ body.
+Proof.
+  intros Hn Hok Hb. pose proof (emit_len_intro n Hn) as Hl. split.
+  - now apply andthen_ok_intro.
+  - rewrite andthen_bytes by exact Hl. destruct (emit_len_ok n Hl) as [_ ->]. now rewrite Hb.
+Qed.
+
+Lemma PS_dec_fields_reenc c ts :
+  Forall (fun t => PS (Reenc t) (dec slice_reader c t)) ts ->
+  forall sk, length sk = length ts ->
+    PS (fun l pre => snd (fields_out (fun t' x => ser t' x) ts sk l) = None /\
+                     sbytes (fields_out (fun t' x => ser t' x) ts sk l) = pre)
+       (dec_fields (fun t' s => dec slice_reader c t' s) ts sk).
+Proof.
+  induction 1 as [|t' tr Ht' Htr IH]; intros sk Hsk; cbn [dec_fields].
+  - apply PS_ret. destruct sk; split; reflexivity.
+  - destruct sk as [|sb sr]; [discriminate|]. cbn [length] in Hsk.
+    eapply (PS_bind (fun v pre => if sb then pre = [] else Reenc t' v pre)).
+    + destruct sb; [apply PS_ret; reflexivity|exact Ht'].
+    + intros v pre1 Hv.
+      eapply PS_ext with (p := fun s => '(r, s2) <- dec_fields (fun t' s => dec slice_reader c t' s) tr sr s ;; l <- Ok (v :: r) ;; Ok (l, s2)).
+      { intros bs. destruct (dec_fields _ tr sr bs) as [[r s2]|k m|w]; reflexivity. }
+      eapply PS_post; [apply (IH sr); lia|].
+      intros r pre2 [Hok Hb]. cbn beta iota. cbn [fields_out].
+      destruct sb.
+      * subst pre1. split; [apply andthen_ok_intro; [reflexivity|exact Hok]|].
+        rewrite andthen_bytes by reflexivity. rewrite sbytes_done. exact Hb.
+      * destruct Hv as [Hvo Hvb]. split; [apply andthen_ok_intro; assumption|].
+        rewrite andthen_bytes by exact Hvo. now rewrite Hvb, Hb.
+Qed.
+
+Lemma slice_out_nil b f : snd (slice_out b f []) = None /\ sbytes (slice_out b f []) = [].
+Proof. unfold slice_out. destruct b; split; reflexivity. Qed.
+
+Lemma post_reenc c k t' l body :
+  strict c = true -> wf (TSeq k t') = true -> is_index k = false ->
+  mem_zst (key_ty k t') = false ->
+  forallb (has_ty t') l = true -> len l < U32_LIMIT ->
+  (if is_u8 t' then l = of_bytes body else chunks (fun x p => Typed t' x p /\ Reenc t' x p) l body) ->
+  match post c k (key_ty k t') l with
+  | Ok v => Reenc (TSeq k t') v (le 4 (len l) ++ body)
+  | Err e _ => e = InvalidData
+  | Panic _ => False
+  end.
+Proof.
+  intros Hs Hwf Hni Hz Hty Hlen Hbody. unfold post, Reenc.
+  set (cmp := cmp_val (key_ty k t')). set (key := key_val k). rewrite Hs.
+  destruct (is_ordered k) eqn:Ho; cbn [andb].
+  - destruct (strictly_ascending cmp key l) eqn:Hsa; cbn [negb]; [|reflexivity].
+    assert (Hk : is_keyed k = true) by (unfold is_keyed; now rewrite Ho).
+    pose (P := fun x => has_ty (key_ty k t') (key x) = true).
+    assert (HP : Forall P l) by (apply (Forall_P k t' Hwf); exact Hty).
+    assert (Hcs : collect_sorted cmp key l = l).
+    { apply (collect_sorted_id cmp key P); [apply (c_anti k t')|apply (c_lt k t' Hk Hwf)|exact HP|exact Hsa]. }
+    assert (Hsb : sort_by cmp key l = l) by (apply (sort_by_sorted_id cmp key P); assumption).
+    destruct (reenc_body t' false l body Hbody) as [Hbo Hbb]. rewrite andb_false_r in Hbo, Hbb.
+    unfold slice_out in Hbo, Hbb.
+    destruct k; cbn in Ho; try discriminate Ho; rewrite Hcs; cbn [ser ser_checks_zst uses_slice_path andb];
+      fold cmp key; rewrite Hz, ?andb_false_r, ?Hsb; unfold slice_out; cbn [andb];
+      apply emit_len_then; assumption.
+  - destruct k; cbn in Ho, Hni; try discriminate Ho; try discriminate Hni;
+      cbn [ser ser_checks_zst uses_slice_path andb]; rewrite ?Hz, ?andb_false_r; cbn [key_ty is_map] in Hz; rewrite ?Hz.
+    + (* Vec *) destruct (reenc_body t' true l body Hbody) as [Hbo Hbb]. now apply emit_len_then.
+    + (* Deque *)
+      destruct (reenc_body t' true l body Hbody) as [Hbo Hbb].
+      destruct (slice_out_nil (is_u8 t' && true) (ser t')) as [Hno Hnb].
+      rewrite len_nil, N.add_0_r.
+      apply emit_len_then; [exact Hlen| |].
+      * apply andthen_ok_intro; assumption.
+      * rewrite andthen_bytes by exact Hbo. rewrite Hbb, Hnb. apply app_nil_r.
+    + (* List *) destruct (reenc_body t' false l body Hbody) as [Hbo Hbb]. rewrite andb_false_r in Hbo, Hbb. now apply emit_len_then.
+    + (* Slice *) destruct (reenc_body t' true l body Hbody) as [Hbo Hbb]. now apply emit_len_then.
+Qed.
+
+Theorem dec_reenc c t :
+  strict c = true -> wf t = true -> dflt_ok t = true -> no_index t = true ->
+  PS (Reenc t) (dec slice_reader c t).
+Proof.
+  intros Hs.
+  induction t as [p|u|k|k|k t' IH|n t' IH|k ts IH|k vs IH|w t' IH] using ty_ind'; intros Hwf Hd Hni.
+  - (* prim *)
+    cbn [dec].
+    eapply PS_ext with (p := fun s => '(b, s') <- read_mapped slice_reader (N.of_nat (prim_width p)) s ;;
+                                      v <- (match prim_de_check p (unle b) with Some m => Err InvalidData m | None => Ok (VN (unle b)) end) ;; Ok (v, s')).
+    { intros bs. destruct (read_mapped slice_reader _ bs) as [[b r]|k m|w]; cbn [bind]; [|reflexivity|reflexivity].
+      destruct (prim_de_check p (unle b)); reflexivity. }
+    eapply PS_post; [apply PS_read|]. intros b pre [-> L].
+    destruct (prim_de_check p (unle pre)) eqn:Ec; [reflexivity|]. unfold Reenc. cbn [ser].
+    assert (Hsc : prim_ser_check p (unle pre) = None).
+    { destruct p; cbn in *; try reflexivity. destruct (is_nan double (unle pre)); [discriminate|reflexivity]. }
+    rewrite Hsc. split; [reflexivity|]. rewrite sbytes_emit.
+    assert (Hl : length pre = prim_width p) by (rewrite len_eq in L; lia).
+    rewrite <- Hl. apply le_unle.
+  - cbn [dec]. apply PS_ret. split; reflexivity.
+  - (* raw *)
+    cbn [dec].
+    eapply PS_ext with (p := fun s => '(b, s') <- read_mapped slice_reader (raw_len k) s ;; v <- Ok (VL (of_bytes b)) ;; Ok (v, s')).
+    { intros bs. destruct (read_mapped slice_reader _ bs) as [[b r]|? ?|?]; reflexivity. }
+    eapply PS_post; [apply PS_read|]. intros b pre [-> L]. cbn beta iota. unfold Reenc. cbn [ser]. apply reenc_bytes.
+  - (* text *)
+    assert (Hvec : PS (Reenc (TText k)) (fun s => '(l, s') <- dec_vec slice_reader true (fun _ => Panic P_ILLTYPED) s ;; v <- text_post k l ;; Ok (v, s'))).
+    { eapply PS_post.
+      - eapply PS_ext; [|apply (PS_dec_vec true (fun _ => Err InvalidData MSimple) (fun _ _ => True)); apply PS_fail].
+        intros bs. unfold dec_vec. destruct (read_u32 slice_reader bs) as [[n s1]|? ?|?]; cbn [bind]; [|reflexivity|reflexivity].
+        destruct (n =? 0); reflexivity.
+      - intros l pre (body & -> & Hlen & ->). unfold text_post.
+        destruct (typed_bytes body) as (ns & E & B & _). rewrite E.
+        destruct (text_check k ns) eqn:Et; [reflexivity|]. unfold Reenc. cbn [ser].
+        destruct (reenc_bytes body) as [Hbo Hbb]. now apply emit_len_then. }
+    destruct k; cbn [dec]; try exact Hvec.
+    (* BytesMut *)
+    eapply (PS_bind _ _ (read_u32 slice_reader)); [apply PS_read_u32|].
+    intros n pre1 [-> Hn].
+    eapply PS_ext with (p := fun s => '(l, s2) <- repeat_dec (fun s => '(b, s') <- read_u8 slice_reader s ;; Ok (VN b, s')) n s ;; v <- Ok (VL l) ;; Ok (v, s2)).
+    { intros bs. destruct (repeat_dec _ n bs) as [[l s2]|? ?|?]; reflexivity. }
+    eapply PS_post.
+    + apply PS_repeat_dec with (V := fun x p => exists b, x = VN b /\ p = [n2b b] /\ b < 256).
+      eapply PS_ext with (p := fun s => '(b, s') <- read_u8 slice_reader s ;; v <- Ok (VN b) ;; Ok (v, s')).
+      { intros bs. destruct (read_u8 slice_reader bs) as [[b r]|? ?|?]; reflexivity. }
+      eapply PS_post; [apply PS_read_u8|]. intros b pre [-> Hb]. cbn. eauto.
+    + intros l pre [Hc Hl]. cbn beta iota. unfold Reenc. cbn [ser]. subst n.
+      assert (Hns : exists ns, vals_ns l = Some ns /\ to_bytes ns = pre).
+      { clear Hn. induction Hc as [|l a p1 p2 Hc IHc (b & -> & -> & Hb)].
+        - exists []. split; reflexivity.
+        - destruct IHc as (ns & E & <-). exists (ns ++ [b]). split.
+          + rewrite (vals_ns_Some l ns E). change [VN b] with (map VN [b]). rewrite <- (map_app VN ns [b]).
+            clear. induction (ns ++ [b]) as [|x r IHl]; cbn; [reflexivity|now rewrite IHl].
+          + unfold to_bytes. now rewrite map_app. }
+      destruct Hns as (ns & E & <-).
+      destruct (emit_bytes_of_ok l ns E) as [Hbo Hbb]. now apply emit_len_then.
+  - (* seq *)
+    assert (Hw' : wf t' = true).
+    { cbn [wf] in Hwf. repeat (apply andb_true_iff in Hwf; destruct Hwf as [Hwf ?]). exact Hwf. }
+    cbn [dflt_ok] in Hd. cbn [no_index] in Hni. apply andb_true_iff in Hni. destruct Hni as [Hnk Hni].
+    apply negb_true_iff in Hnk.
+    cbn [dec]. destruct (mem_zst (key_ty k t')) eqn:Hz; [apply PS_fail|].
+    eapply PS_post.
+    + apply (PS_dec_vec (is_u8 t') _ (fun x p => Typed t' x p /\ Reenc t' x p)).
+      apply PS_conj; [apply dec_typed; assumption|apply IH; assumption].
+    + intros l pre (body & -> & Hlen & Hl).
+      assert (Hel : forallb (has_ty t') l = true).
+      { destruct (is_u8 t') eqn:Eu.
+        - assert (t' = TPrim (PInt false W1)).
+          { destruct t' as [[[] []| | | | | |]| | | | | | | |]; cbn in Eu; try discriminate; reflexivity. }
+          subst t' l. apply forallb_u8_of_bytes.
+        - apply forallb_of_Forall. eapply chunks_Forall; [|exact Hl]. intros a p [[H _] _]. exact H. }
+      exact (post_reenc c k t' l body Hs Hwf Hnk Hz Hel Hlen Hl).
+  - (* array *)
+    cbn [wf dflt_ok no_index] in *. cbn [dec]. destruct (is_u8 t') eqn:Eu.
+    + eapply PS_ext with (p := fun s => '(b, s') <- read_mapped slice_reader n s ;; v <- Ok (VL (of_bytes b)) ;; Ok (v, s')).
+      { intros bs. destruct (read_mapped slice_reader _ bs) as [[b r]|? ?|?]; reflexivity. }
+      eapply PS_post; [apply PS_read|]. intros b pre [-> L]. cbn beta iota. unfold Reenc. cbn [ser].
+      destruct (N.eqb_spec n 0) as [E0|E0].
+      * subst n. apply len_zero_nil in E0. subst pre. split; reflexivity.
+      * rewrite Eu. unfold slice_out. apply reenc_bytes.
+    + eapply PS_ext with (p := fun s => '(l, s') <- repeat_dec (dec slice_reader c t') n s ;; v <- Ok (VL l) ;; Ok (v, s')).
+      { intros bs. destruct (repeat_dec _ n bs) as [[l r]|? ?|?]; reflexivity. }
+      eapply PS_post; [apply (PS_repeat_dec _ (Reenc t') n (IH Hwf Hd Hni))|].
+      intros l pre [Hc Hn]. cbn beta iota. unfold Reenc. cbn [ser].
+      destruct (N.eqb_spec n 0) as [E0|E0].
+      * subst n. apply len_zero_nil in E0. subst l. apply chunks_len_nil in Hc. subst pre. split; reflexivity.
+      * rewrite Eu. unfold slice_out. now apply chunks_each_out.
+  - (* prod *)
+    cbn [wf] in Hwf. apply andb_true_iff in Hwf. destruct Hwf as [_ Hwts].
+    cbn [dflt_ok] in Hd. apply andb_true_iff in Hd. destruct Hd as [Hdts _].
+    cbn [no_index] in Hni. cbn [dec].
+    eapply PS_ext with (p := fun s => '(l, s') <- dec_fields (fun t' s => dec slice_reader c t' s) ts (prod_skips k (length ts)) s ;; v <- Ok (VL l) ;; Ok (v, s')).
+    { intros bs. destruct (dec_fields _ ts _ bs) as [[l r]|? ?|?]; reflexivity. }
+    eapply PS_post.
+    + apply PS_dec_fields_reenc; [|apply prod_skips_length].
+      rewrite Forall_forall in *. intros t0 Ht0.
+      apply IH; [exact Ht0|exact (forallb_In _ _ _ Hwts Ht0)|exact (forallb_In _ _ _ Hdts Ht0)|exact (forallb_In _ _ _ Hni Ht0)].
+    + intros l pre H. cbn beta iota. unfold Reenc. cbn [ser]. exact H.
+  - (* sum *)
+    cbn [wf] in Hwf. repeat (apply andb_true_iff in Hwf; destruct Hwf as [Hwf ?]). rename H into Hwvs.
+    cbn [dflt_ok no_index] in Hd, Hni. cbn [dec].
+    eapply (PS_bind _ _ (read_u8 slice_reader)); [apply PS_read_u8|].
+    intros b pre1 [-> Hb]. destruct (find_tag (sum_tags k) b 0) as [i|] eqn:Eft; [|apply PS_fail].
+    destruct (find_tag_some _ _ _ _ Eft) as (ni & Ei & Etag). rewrite N.add_0_l in Ei.
+    eapply PS_ext with (p := fun s => '(v, s2) <- nth_or (fun t' => dec slice_reader c t') (fun _ => Err InvalidData (bad_tag k b)) vs (N.to_nat i) s ;; v' <- Ok (VV i v) ;; Ok (v', s2)).
+    { intros bs.
+      assert (E : nth_or (fun t' => dec slice_reader c t' bs) (Err InvalidData (bad_tag k b)) vs (N.to_nat i) =
+                  nth_or (fun t' => dec slice_reader c t') (fun _ => Err InvalidData (bad_tag k b)) vs (N.to_nat i) bs)
+        by apply nth_or_parser.
+      rewrite E. destruct (nth_or _ _ vs (N.to_nat i) bs) as [[v r]|? ?|?]; reflexivity. }
+    eapply PS_post.
+    + apply (PS_nth_or Reenc (fun t' => dec slice_reader c t')).
+      rewrite Forall_forall in *. intros t0 Ht0.
+      apply IH; [exact Ht0|exact (forallb_In _ _ _ Hwvs Ht0)|exact (forallb_In _ _ _ Hd Ht0)|exact (forallb_In _ _ _ Hni Ht0)].
+    + intros v pre (t0 & E & Hvo & Hvb). cbn beta iota. unfold Reenc. cbn [ser].
+      assert (Hni' : N.to_nat i = ni) by lia. rewrite Hni' in *. rewrite Etag.
+      rewrite (nth_or_some _ _ _ _ _ E). split.
+      * apply andthen_ok_intro; [reflexivity|exact Hvo].
+      * rewrite andthen_bytes by reflexivity. rewrite sbytes_emit, Hvb. reflexivity.
+  - cbn [wf dflt_ok no_index dec] in *. eapply PS_weaken; [|apply IH; assumption].
+    intros a pre H. exact H.
+Qed.
+
+(** * Loose versus strict key ordering *)
+Definition Rel {A} (rl rs : result A) : Prop := rs = rl \/ rs = Err InvalidData MKeyOrder.
+
+Lemma Rel_refl {A} (r : result A) : Rel r r.
+Proof. now left. Qed.
+
+Lemma Rel_bind {A B} (rl rs : result A) (fl fs : A -> result B) :
+  Rel rl rs -> (forall a, Rel (fl a) (fs a)) -> Rel (bind rl fl) (bind rs fs).
+Proof.
+  intros [E|E] H; subst rs.
+  - destruct rl as [a|k m|w]; cbn [bind]; [apply H|apply Rel_refl|apply Rel_refl].
+  - right. reflexivity.
+Qed.
+
+Lemma Rel_iterN {S} (fl fs : S -> result S) :
+  (forall s, Rel (fl s) (fs s)) -> forall n s, Rel (iterN n fl s) (iterN n fs s).
+Proof.
+  intros H n. induction n as [|n IH] using N.peano_ind; intros s.
+  - apply Rel_refl.
+  - rewrite !iterN_succ. apply Rel_bind; [apply H|apply IH].
+Qed.
+
+Definition c_loose : cfg := {| strict := false |}.
+Definition c_strict : cfg := {| strict := true |}.
+
+Lemma Rel_repeat_dec (fl fs : bytes -> result (val * bytes)) n s :
+  (forall s, Rel (fl s) (fs s)) -> Rel (repeat_dec fl n s) (repeat_dec fs n s).
+Proof.
+  intros H. unfold repeat_dec. apply Rel_bind; [|intros [acc s']; apply Rel_refl].
+  apply Rel_iterN. intros [acc s0]. apply Rel_bind; [apply H|intros [v s1]; apply Rel_refl].
+Qed.
+
+Lemma Rel_dec_vec u8 (fl fs : bytes -> result (val * bytes)) s :
+  (forall s, Rel (fl s) (fs s)) -> Rel (dec_vec slice_reader u8 fl s) (dec_vec slice_reader u8 fs s).
+Proof.
+  intros H. unfold dec_vec. apply Rel_bind; [apply Rel_refl|]. intros [n s1].
+  destruct (n =? 0); [apply Rel_refl|]. destruct u8; [apply Rel_refl|]. now apply Rel_repeat_dec.
+Qed.
+
+Lemma Rel_post k kt l : Rel (post c_loose k kt l) (post c_strict k kt l).
+Proof.
+  unfold post. cbn [strict c_loose c_strict]. rewrite andb_false_r. cbn [andb].
+  destruct (is_ordered k && true && negb (strictly_ascending (cmp_val kt) (key_val k) l)); [now right|now left].
+Qed.
+
+Lemma Rel_dec_fields ts :
+  Forall (fun t => forall s, Rel (dec slice_reader c_loose t s) (dec slice_reader c_strict t s)) ts ->
+  forall sk s, Rel (dec_fields (fun t' s => dec slice_reader c_loose t' s) ts sk s)
+                   (dec_fields (fun t' s => dec slice_reader c_strict t' s) ts sk s).
+Proof.
+  induction 1 as [|t' tr Ht' Htr IH]; intros sk s; cbn [dec_fields]; [apply Rel_refl|].
+  apply Rel_bind.
+  - destruct (match sk with b :: _ => b | [] => false end); [apply Rel_refl|apply Ht'].
+  - intros [v s1]. apply Rel_bind; [apply IH|intros [r s2]; apply Rel_refl].
+Qed.
+
+Theorem dec_loose_strict t : forall s, Rel (dec slice_reader c_loose t s) (dec slice_reader c_strict t s).
+Proof.
+  induction t as [p|u|k|k|k t' IH|n t' IH|k ts IH|k vs IH|w t' IH] using ty_ind'; intros s; cbn [dec]; try apply Rel_refl.
+  - destruct (mem_zst (key_ty k t')); [apply Rel_refl|].
+    apply Rel_bind; [apply Rel_dec_vec; exact IH|]. intros [l s']. apply Rel_bind; [apply Rel_post|intros v; apply Rel_refl].
+  - destruct (is_u8 t'); [apply Rel_refl|].
+    apply Rel_bind; [apply Rel_repeat_dec; exact IH|intros [l s']; apply Rel_refl].
+  - apply Rel_bind; [apply Rel_dec_fields; exact IH|intros [l s']; apply Rel_refl].
+  - apply Rel_bind; [apply Rel_refl|]. intros [b s1].
+    destruct (find_tag (sum_tags k) b 0) as [i|]; [|apply Rel_refl].
+    apply Rel_bind; [|intros [v s2]; apply Rel_refl].
+    generalize (N.to_nat i). induction IH as [|x r Hx Hr IHr]; intros [|m]; cbn [nth_or]; try apply Rel_refl.
+    + apply Hx.
+    + apply IHr.
+  - apply IH.
+Qed.
+
+(** * Statements *)
+Lemma accept_sound c t bs v rest :
+  wf t = true -> dflt_ok t = true -> dec_slice c t bs = Ok (v, rest) ->
+  exists pre, bs = pre ++ rest /\ has_ty t v = true /\ logical t v = v.
+Proof.
+  intros Hwf Hd H. pose proof (dec_typed c t Hwf Hd bs) as P. unfold dec_slice in H. rewrite H in P.
+  destruct P as (pre & E & [Hty Hlog] & _). exists pre. auto.
+Qed.
+
+Lemma accept_strict_reencodes c t bs v rest :
+  strict c = true -> wf t = true -> dflt_ok t = true -> no_index t = true ->
+  dec_slice c t bs = Ok (v, rest) ->
+  exists pre, bs = pre ++ rest /\ has_ty t v = true /\ enc t v = Ok pre.
+Proof.
+  intros Hs Hwf Hd Hni H.
+  pose proof (PS_conj _ _ _ (dec_typed c t Hwf Hd) (dec_reenc c t Hs Hwf Hd Hni) bs) as P.
+  unfold dec_slice in H. rewrite H in P.
+  destruct P as (pre & E & [[Hty _] [Hok Hb]] & _). exists pre. repeat split; auto.
+  apply enc_ok_iff. split; [exact Hok|now symmetry].
+Qed.
+
+Lemma strict_whole_input_bijective c t bs v :
+  strict c = true -> wf t = true -> dflt_ok t = true -> no_index t = true ->
+  try_from_slice c t bs = Ok v -> enc t v = Ok bs.
+Proof.
+  intros Hs Hwf Hd Hni H. unfold try_from_slice in H.
+  destruct (dec_slice c t bs) as [[v' r]|k m|w] eqn:E; cbn [bind] in H; try discriminate.
+  destruct r; [|discriminate]. inversion H; subst v'.
+  destruct (accept_strict_reencodes c t bs v [] Hs Hwf Hd Hni E) as (pre & Eb & _ & Henc).
+  rewrite app_nil_r in Eb. now subst.
+Qed.
+
+Lemma strict_injective c t bs1 bs2 v :
+  strict c = true -> wf t = true -> dflt_ok t = true -> no_index t = true ->
+  try_from_slice c t bs1 = Ok v -> try_from_slice c t bs2 = Ok v -> bs1 = bs2.
+Proof.
+  intros Hs Hwf Hd Hni H1 H2.
+  pose proof (strict_whole_input_bijective c t bs1 v Hs Hwf Hd Hni H1) as E1.
+  pose proof (strict_whole_input_bijective c t bs2 v Hs Hwf Hd Hni H2) as E2. congruence.
+Qed.
+
+Lemma loose_accepts_more t bs r :
+  dec_slice c_loose t bs = Ok r ->
+  dec_slice c_strict t bs = Ok r \/ dec_slice c_strict t bs = Err InvalidData MKeyOrder.
+Proof. intros H. destruct (dec_loose_strict t bs) as [E|E]; unfold dec_slice in *; [left; congruence|right; exact E]. Qed.
+
+Lemma strict_accepts_less t bs r :
+  dec_slice c_strict t bs = Ok r -> dec_slice c_loose t bs = Ok r.
+Proof. intros H. destruct (dec_loose_strict t bs) as [E|E]; unfold dec_slice in *; congruence. Qed.
+
+Lemma loose_same_errors t bs k m :
+  dec_slice c_loose t bs = Err k m ->
+  dec_slice c_strict t bs = Err k m \/ dec_slice c_strict t bs = Err InvalidData MKeyOrder.
+Proof. intros H. destruct (dec_loose_strict t bs) as [E|E]; unfold dec_slice in *; [left; congruence|right; exact E]. Qed.
+
+Lemma index_accepts_duplicates :
+  exists (t : ty) (bs : bytes) (v : val),
+    wf t = true /\ dflt_ok t = true /\ try_from_slice c_strict t bs = Ok v /\ enc t v <> Ok bs.
+Proof.
+  exists (TSeq SIndexSet (TPrim (PInt false W1))), [x02; x00; x00; x00; x01; x01], (VL [VN 1]).
+  repeat split; try reflexivity. vm_compute. discriminate.
+Qed.
